@@ -19,13 +19,21 @@ C5Init0 == [dataSegs |-> 0,        \* distinct data segments emitted before the 
             needRetx |-> -1,      \* offset the next data emission MUST start at (third strict duplicate ACK), or -1
             mayRetx |-> FALSE,    \* three loose duplicate ACKs arrived: one early retransmission of the head is justified
             fresh |-> FALSE,      \* an ACK advanced una and the new head has not been retransmitted since (partial ACK / go-back-N credit)
-            recover |-> -1]       \* highest offset sent when loss recovery last started (RFC 6582 "recover")
+            recover |-> -1,       \* highest offset sent when loss recovery last started (RFC 6582 "recover")
+            rtoPrev |-> -1,       \* time of the last timeout retransmission if NOTHING has arrived since (the peer is silent), else -1
+            rtoGap |-> -1]        \* interval between the last two timeout retransmissions of that silent period, or -1
 
 IsRetx(c, off) == off \in DOMAIN c.lastTx
 \* A TIMEOUT retransmission: the earliest unacknowledged segment is sent again and nothing justifies doing so early:
 \* not the fast retransmit, no three duplicate ACKs, not the first retransmission of a head the left edge has moved to
 \* while loss recovery is in progress (partial-ACK retransmission, go-back-N after a timeout).
 IsTimeoutRetx(c, off) == IsRetx(c, off) /\ off = c.una /\ c.needRetx # off /\ ~c.mayRetx /\ ~(c.fresh /\ off < c.recover)
+\* "the timeout at least doubling between successive retransmissions": the timer is re-armed when the retransmission is
+\* emitted, so successive intervals are R + lateness, 2R + lateness, ...; lateness (timer goroutine scheduling) is the only
+\* slack needed: the larger of 60 ms and a quarter of the previous interval.  The doubling stops at the 60 s ceiling.
+MaxRTO == 60000000
+BackoffSlack(g) == IF g \div 4 > 60000 THEN g \div 4 ELSE 60000
+BackoffOK(c, t) == c.rtoGap >= 0 => t - c.rtoPrev >= (IF 2 * c.rtoGap > MaxRTO THEN MaxRTO ELSE 2 * c.rtoGap) - BackoffSlack(c.rtoGap)
 InFlight(c, newsent) == Cardinality({s \in newsent : s[2] > c.una})
 
 \* the C05 clauses for an emitted data segment [off, off+len) at time t
@@ -33,20 +41,26 @@ C5EmitOK(c, off, len, t, kf7, reno) ==
   /\ (c.needRetx >= 0 => off = c.needRetx)                            \* after the third duplicate ACK the head goes out first
   /\ IsTimeoutRetx(c, off) => (t - c.lastTx[off] >= 200000            \* never sooner than 200 ms after its previous transmission
                                \/ (kf7 /\ c.recover >= 0))            \* known finding F7: timeout shortly after a fast retransmit
+  /\ c.rtoPrev >= 0 => /\ off = c.una                               \* exactly one segment (the earliest unacknowledged one) per timeout while the peer stays silent
+                        /\ IsTimeoutRetx(c, off) => BackoffOK(c, t)    \* and the timeout at least doubles between successive retransmissions
   /\ (~c.ackedData /\ ~IsRetx(c, off)) => c.dataSegs + 1 <= 10         \* at most 10 segments before the first ACK
   /\ reno => InFlight(c, c.sent \cup {<<off, off + len>>}) <= 10 + c.segsAcked + c.acks
 
 C5AfterEmit(c, off, len, t, emitMaxBefore) ==
-  LET headRetx == IsRetx(c, off) /\ off = c.una IN
-  [c EXCEPT !.dataSegs = IF c.ackedData \/ IsRetx(c, off) THEN @ ELSE @ + 1,
+  LET headRetx == IsRetx(c, off) /\ off = c.una
+      tmo == IsTimeoutRetx(c, off) IN
+  [c EXCEPT !.rtoPrev = IF tmo THEN t ELSE @,
+            !.rtoGap = IF tmo /\ c.rtoPrev >= 0 THEN t - c.rtoPrev ELSE @,
+            !.dataSegs = IF c.ackedData \/ IsRetx(c, off) THEN @ ELSE @ + 1,
             !.sent = @ \cup {<<off, off + len>>},
             !.lastTx = (off :> t) @@ @,
             !.recover = IF headRetx THEN Max2(@, emitMaxBefore) ELSE @,
             !.needRetx = -1, !.mayRetx = IF headRetx THEN FALSE ELSE @, !.fresh = IF headRetx THEN FALSE ELSE @]
 
 \* an ACK-bearing segment arrives: a = relative ack number, llen = its logical length (data + FIN), wnd = raw window field
-C5AfterAck(c, a, llen, wnd, t) ==
-  LET acked == a - 1
+C5AfterAck(c0, a, llen, wnd, t) ==
+  LET c == [c0 EXCEPT !.rtoPrev = -1, !.rtoGap = -1]          \* something arrived: the peer is not silent
+      acked == a - 1
       newly == Cardinality({s \in c.sent : s[2] <= acked /\ s[2] > c.una})
       outstanding == \E s \in c.sent : s[2] > acked
       strict == IF wnd = c.lastWnd THEN c.dupS + 1 ELSE 0
